@@ -145,7 +145,7 @@ func runC10(c *core.Case) *core.Result {
 			script = append(script, f)
 		}
 	}
-	fine := canTwin && (c.Index/4)%3 == 1 // every type (the type is the index modulo 4)
+	fine := canTwin && (c.Index/4)%3 != 0 // two histories in three, every type (the type is the index modulo 4)
 	maxTwins := 12
 	if fine {
 		maxTwins = 200
